@@ -242,6 +242,22 @@ def check(run, prog, tier):
         bad = [n.get("l") for b, i, n in ljs if not any(eh.dominates(g, b.id) for g in gb)]
         run.ob("C05-c", "reset:" + gname, bool(gb) and not bad, "%s dominates all %d longjmp sites" % (gname, len(ljs)) if gb and not bad else "longjmp at line(s) %s not dominated by %s" % (bad, gname),
                eh.file, eh.line, "error_handler", what="error_handler can jump without %s" % gname)
+    # the same holds for every other function of the unit that jumps to the current recovery point itself (throw_error:
+    # a thrown value leaves load_object()/destruct_object() exactly like an error does)
+    ecu = prog.unit("src/error_context.c")
+    for g in sorted(ecu.funcs.values(), key=lambda x: x.line):
+        if g.name == "error_handler" or not g.file.endswith("error_context.c"):
+            continue
+        gl = [(b, i, n) for b, i, n in g.calls() if n.get("fn") in ("longjmp", "_longjmp", "siglongjmp") and "current_error_context" in show(n["args"][0])]
+        if not gl:
+            continue
+        run.saw(g)
+        for gname in ("reset_destruct_object_limits", "reset_load_object_limits"):
+            gb = [b.id for b, i, n in g.calls(gname)]
+            bad = [n.get("l") for b, i, n in gl if not any(g.dominates(x, b.id) for x in gb)]
+            run.ob("C05-c", "reset:%s:%s" % (g.name, gname), bool(gb) and not bad, "%s dominates the jump(s) of %s()" % (gname, g.name) if gb and not bad else
+                   "%s() jumps to the current recovery point at line %s without %s: a value thrown out of create()/move_or_destruct() leaves the load/destruct guards set" % (g.name, bad or [n.get("l") for b, i, n in gl], gname),
+                   g.file, g.line, g.name, what="%s can jump without %s" % (g.name, gname))
     # flags: constant propagation {entry, 0, 1}
     flags = ("in_error", "in_mudlib_error_handler")
 
@@ -421,3 +437,72 @@ def check(run, prog, tier):
     # ---- C05-i efun stack discipline
     import rules.C05i as c05i
     c05i.check(run, prog, tier, cg)
+
+    # ---- C05-j the apply family consumes its arguments on every return path
+    run.rule("C05-j", "every function of the apply family (apply, safe_apply, apply_master_ob, safe_apply_master_ob, call_function_pointer, safe_call_function_pointer, call_efun_callback) removes its num_arg arguments from the value stack on every path to a return: it hands num_arg to another member of the family, pops them itself (pop_n_elems(num_arg) / restore_context), or never returns; callers - and the stack model of C05-i - rely on it", 6)
+    import rules.C01e as _c01e
+    FAM = {k: v for k, v in _c01e.CONSUMES.items() if v is not None}
+    FAM["apply_low"] = 2
+    nfam = 0
+    for name, pi in sorted(FAM.items()):
+        g = prog.func(name)
+        if g is None:
+            continue
+        nfam += 1
+        run.saw(g)
+        pname = None
+        for p_ in g.params or []:
+            if p_.get("pi") == pi:
+                pname = p_.get("n")
+        if pname is None:
+            run.ob("C05-j", "consumes:%s" % name, None, "%s has no parameter %d" % (name, pi), g.file, g.line, name)
+            continue
+        consuming = set()
+        for b, i, n in g.calls():
+            fn = n.get("fn")
+            args = n.get("args", [])
+            if fn in FAM and len(args) > FAM[fn] and any(x.get("k") == "Ref" and x.get("n") == pname and x.get("d") == "param" for x in walk(args[FAM[fn]])):
+                consuming.add(b.id)
+            elif fn in ("pop_n_elems",) and args and any(x.get("k") == "Ref" and x.get("n") == pname for x in walk(args[0])):
+                consuming.add(b.id)
+            elif fn in ("restore_context",):
+                # the saved stack pointer predates the arguments only if the context was saved before they were pushed:
+                # inside the family the context is saved after, so this does not count
+                pass
+            elif n.get("nr") or fn in ("fatal",) or fn in callgraph.RAISE_SEEDS:
+                consuming.add(b.id)
+            elif fn in ("call_program", "eval_instruction", "call_direct", "call_simul_efun", "call_efun") or (fn is None and "efun_table" in str(n.get("fe"))):
+                # the callee's frame owns the arguments: F_RETURN (or the efun) removes them
+                consuming.add(b.id)
+        # stores that move sp below the arguments: sp -= num_arg / sp = fp - 1 style resets in apply_low are via pop_n_elems or callee frames
+        for b, i, n in g.nodes():
+            if n.get("k") == "Asg" and n.get("op") in ("-=",) and strip(n["L"]).get("n") == "sp" and any(x.get("k") == "Ref" and x.get("n") == pname for x in walk(n["R"])):
+                consuming.add(b.id)
+        exits = [bid for bid in g.reachable() if g.exit in g.blocks[bid].live_succ() and not g.blocks[bid].nr]
+        p = g.reach_avoiding([g.entry], lambda blk: blk.id in exits and blk.id not in consuming, avoid_blocks=consuming) if g.entry not in consuming else None
+        run.ob("C05-j", "consumes:%s" % name, p is None, "every return of %s() follows a hand-over or a pop of its %s arguments" % (name, pname) if p is None else
+               "path %s returns from %s() with its %s arguments still on the value stack" % (p[:8], name, pname), g.file, g.line, name,
+               what="%s() can return without having consumed its arguments: the caller's stack is one frame of arguments too high from then on" % name)
+    run.need(nfam >= 6, "apply-family functions (found %d)" % nfam)
+
+    # ---- C05-k the command-giver stack is not held across a call that can raise
+    run.rule("C05-k", "save_command_giver()/restore_command_giver() keep a C-side stack that error recovery does not unwind: no call that can raise an error lies between a save and its restore (callers keep the reference on the value stack instead); functions with a recovery point of their own are exempt", 1)
+    eff5 = callgraph.Effects(callgraph.CallGraph(prog)) if "eff5" not in dir() else eff5
+    nk = 0
+    for f in sorted(prog.functions(), key=lambda x: (x.file, x.line)):
+        saves = [(b, i, n) for b, i, n in f.calls("save_command_giver")]
+        if not saves or f.name in ("save_command_giver", "restore_command_giver"):
+            continue
+        if any(n.get("fn") in ("setjmp", "_setjmp", "__sigsetjmp", "sigsetjmp") for b, i, n in f.calls()):
+            continue
+        restores = {b.id for b, i, n in f.calls("restore_command_giver")}
+        for j, (b, i, n) in enumerate(saves):
+            nk += 1
+            run.saw(f)
+            region = cfgq.reach_set(f, b.live_succ(), avoid_blocks=restores) | {b.id}
+            risky = [(n2.get("fn") or "(*)", n2.get("l")) for b2, i2, n2 in f.calls() if b2.id in region and not (b2.id == b.id and i2 <= i) and n2.get("fn") not in ("restore_command_giver",) and eff5.call_may_raise(f, n2)]
+            run.ob("C05-k", "held:%s:%s:%d" % (rel(f.file), f.name, j), not risky, "nothing that can raise runs between save_command_giver() at line %s and the restore" % n.get("l") if not risky else
+                   "%s() at line %s can raise between save_command_giver() (line %s) and restore_command_giver(): the entry stays on the command giver stack for ever (it overflows after 1023 of them) and the saved object keeps a reference" % (risky[0][0], risky[0][1], n.get("l")),
+                   f.file, n.get("l"), f.name, what="%s holds a command-giver stack entry across a call that can raise" % f.name)
+    if nk == 0:
+        run.ob("C05-k", "held:none", True, "no function holds a command-giver stack entry (save_command_giver() has no callers)", None, None, None)
